@@ -154,8 +154,11 @@ def run(chk):
                     # sqa.column(name) quotes identifiers; only literal_column/text are raw
                     continue
                 n_raw += 1
+                const_text = _is_constant_text(c.args[0])
+                # a failing site is identified by what it is (runtime text into a raw-SQL constructor of this function), not
+                # by its spelling: a refactoring of the same defect keeps its identity
                 chk.ob(
-                    "R2", mod, c, f"{qual_of(c)}: {norm(c)[:140]}", _is_constant_text(c.args[0]),
+                    "R2", mod, c, f"{qual_of(c)}: {norm(c)[:140]}" if const_text else f"{qual_of(c)}: {name}(<text built at run time>)", const_text,
                     f"raw SQL text passed to {name}() is not a constant: `{norm(c.args[0])[:120]}` - a runtime value "
                     "(rendered literal, f-string, parameter) is spliced into the statement text unescaped for the target dialect",
                 )  # fmt: skip
@@ -190,7 +193,7 @@ def run(chk):
                         if own is None or fam != own:
                             foreign = fam
                 chk.ob(
-                    "R4", mod, c, f"{qual_of(c)}: {norm(c)[:120]} [dialect]", foreign is None,
+                    "R4", mod, c, f"{qual_of(c)}: {norm(c)[:120]} [dialect]" if foreign is None else f"{qual_of(c)}: compile(dialect=<{foreign}>) [dialect]", foreign is None,
                     f"statement fragment is rendered with the `{foreign}` dialect inside the {short.split('.')[-1]} back end: "
                     "literal quoting rules of another dialect (e.g. `%%` doubling) reach the executing database",
                 )  # fmt: skip
